@@ -49,6 +49,9 @@ def Helper.ConnectionWD.get_pre_fraction_along (fs : FloatSem F) (self : Obj F) 
 def Helper.ConnectionWD.get_post_fraction_along (fs : FloatSem F) (self : Obj F) : Res F :=
   (pFloat fs (attr self "post_fraction_along"))
 
+def Helper.ConnectionWD.get_delay_in_ms (fs : FloatSem F) (self : Obj F) : Res F :=
+  (pIfElse fs (pIn ['m', 's'] (attr self "delay")) (pFloat fs (pStrip (pDropRight 2 (attr self "delay")))) (pIfElse fs (pIn ['s'] (attr self "delay")) (pMulF fs (pFloat fs (pStrip (pDropRight 1 (attr self "delay")))) fs.thousand) pnone))
+
 def Helper.ElectricalConnection._get_cell_id (fs : FloatSem F) (self : Obj F) (id_string : Res F) : Res F :=
   (pInt fs (pFloat fs id_string))
 
@@ -188,10 +191,10 @@ def Helper.Input.get_target_cell_id (fs : FloatSem F) (self : Obj F) : Res F :=
   (pCall1 (Helper.Input._get_cell_id fs self) (attr self "target"))
 
 def Helper.Input.get_segment_id (fs : FloatSem F) (self : Obj F) : Res F :=
-  (pIfElse fs (pIsNotNone (attr self "segment_id")) (pInt fs (attr self "segment_id")) (pint 0))
+  (pIfElse fs (attr self "segment_id") (pInt fs (attr self "segment_id")) (pint 0))
 
 def Helper.Input.get_fraction_along (fs : FloatSem F) (self : Obj F) : Res F :=
-  (pIfElse fs (pIsNotNone (attr self "fraction_along")) (pFloat fs (attr self "fraction_along")) (pnum fs.half))
+  (pIfElse fs (attr self "fraction_along") (pFloat fs (attr self "fraction_along")) (pnum fs.half))
 
 def Helper.InputW._get_cell_id (fs : FloatSem F) (self : Obj F) (id_string : Res F) : Res F :=
   (pIfElse fs (pIn ['['] id_string) (pInt fs (pIndex 0 (pSplit ']' (pIndex 1 (pSplit '[' id_string))))) (pInt fs (pIndex 2 (pSplit '/' id_string))))
@@ -203,10 +206,10 @@ def Helper.InputW.get_target_cell_id (fs : FloatSem F) (self : Obj F) : Res F :=
   (pCall1 (Helper.InputW._get_cell_id fs self) (attr self "target"))
 
 def Helper.InputW.get_segment_id (fs : FloatSem F) (self : Obj F) : Res F :=
-  (pIfElse fs (pIsNotNone (attr self "segment_id")) (pInt fs (attr self "segment_id")) (pint 0))
+  (pIfElse fs (attr self "segment_id") (pInt fs (attr self "segment_id")) (pint 0))
 
 def Helper.InputW.get_fraction_along (fs : FloatSem F) (self : Obj F) : Res F :=
-  (pIfElse fs (pIsNotNone (attr self "fraction_along")) (pFloat fs (attr self "fraction_along")) (pnum fs.half))
+  (pIfElse fs (attr self "fraction_along") (pFloat fs (attr self "fraction_along")) (pnum fs.half))
 
 def Helper.ExplicitInput._get_cell_id (fs : FloatSem F) (self : Obj F) (id_string : Res F) : Res F :=
   (pIfElse fs (pIn ['['] id_string) (pInt fs (pIndex 0 (pSplit ']' (pIndex 1 (pSplit '[' id_string))))) (pInt fs (pIndex 2 (pSplit '/' id_string))))
@@ -215,10 +218,10 @@ def Helper.ExplicitInput.get_target_cell_id (fs : FloatSem F) (self : Obj F) : R
   (pIfElse fs (pIn ['['] (attr self "target")) (pInt fs (pIndex 0 (pSplit ']' (pIndex 1 (pSplit '[' (attr self "target")))))) (pInt fs (pIndex 2 (pSplit '/' (attr self "target")))))
 
 def Helper.ExplicitInput.get_segment_id (fs : FloatSem F) (self : Obj F) : Res F :=
-  (pint 0)
+  (pIfElse fs (attr self "segment_id") (pInt fs (attr self "segment_id")) (pint 0))
 
 def Helper.ExplicitInput.get_fraction_along (fs : FloatSem F) (self : Obj F) : Res F :=
-  (pnum fs.half)
+  (pIfElse fs (attr self "fraction_along") (pFloat fs (attr self "fraction_along")) (pnum fs.half))
 
 def Helper.SynapticConnection._get_cell_id (fs : FloatSem F) (self : Obj F) (ref : Res F) : Res F :=
   (pIfElse fs (pIn ['['] ref) (pInt fs (pIndex 0 (pSplit ']' (pIndex 1 (pSplit '[' ref))))) (pInt fs (pIndex 2 (pSplit '/' ref))))
@@ -228,7 +231,7 @@ def Helper.Population.get_size (fs : FloatSem F) (self : Obj F) : Res F :=
 
 def Helper.index : List (String × List String) :=
   [("Connection", ["_get_cell_id", "get_pre_cell_id", "get_post_cell_id", "get_pre_segment_id", "get_post_segment_id", "get_pre_fraction_along", "get_post_fraction_along"]),
-   ("ConnectionWD", ["_get_cell_id", "get_pre_cell_id", "get_post_cell_id", "get_pre_segment_id", "get_post_segment_id", "get_pre_fraction_along", "get_post_fraction_along"]),
+   ("ConnectionWD", ["_get_cell_id", "get_pre_cell_id", "get_post_cell_id", "get_pre_segment_id", "get_post_segment_id", "get_pre_fraction_along", "get_post_fraction_along", "get_delay_in_ms"]),
    ("ElectricalConnection", ["_get_cell_id", "get_pre_cell_id", "get_post_cell_id", "get_pre_segment_id", "get_post_segment_id", "get_pre_fraction_along", "get_post_fraction_along"]),
    ("ElectricalConnectionInstance", ["_get_cell_id", "get_pre_cell_id", "get_post_cell_id", "get_pre_segment_id", "get_post_segment_id", "get_pre_fraction_along", "get_post_fraction_along"]),
    ("ElectricalConnectionInstanceW", ["_get_cell_id", "get_pre_cell_id", "get_post_cell_id", "get_pre_segment_id", "get_post_segment_id", "get_pre_fraction_along", "get_post_fraction_along", "get_weight"]),
@@ -307,6 +310,9 @@ def Nml.ConnectionWD.get_pre_fraction_along (fs : FloatSem F) (self : Obj F) : R
 
 def Nml.ConnectionWD.get_post_fraction_along (fs : FloatSem F) (self : Obj F) : Res F :=
   (pFloat fs (attr self "post_fraction_along"))
+
+def Nml.ConnectionWD.get_delay_in_ms (fs : FloatSem F) (self : Obj F) : Res F :=
+  (pIfElse fs (pIn ['m', 's'] (attr self "delay")) (pFloat fs (pStrip (pDropRight 2 (attr self "delay")))) (pIfElse fs (pIn ['s'] (attr self "delay")) (pMulF fs (pFloat fs (pStrip (pDropRight 1 (attr self "delay")))) fs.thousand) pnone))
 
 def Nml.ElectricalConnection._get_cell_id (fs : FloatSem F) (self : Obj F) (id_string : Res F) : Res F :=
   (pInt fs (pFloat fs id_string))
@@ -447,10 +453,10 @@ def Nml.Input.get_target_cell_id (fs : FloatSem F) (self : Obj F) : Res F :=
   (pCall1 (Nml.Input._get_cell_id fs self) (attr self "target"))
 
 def Nml.Input.get_segment_id (fs : FloatSem F) (self : Obj F) : Res F :=
-  (pIfElse fs (pIsNotNone (attr self "segment_id")) (pInt fs (attr self "segment_id")) (pint 0))
+  (pIfElse fs (attr self "segment_id") (pInt fs (attr self "segment_id")) (pint 0))
 
 def Nml.Input.get_fraction_along (fs : FloatSem F) (self : Obj F) : Res F :=
-  (pIfElse fs (pIsNotNone (attr self "fraction_along")) (pFloat fs (attr self "fraction_along")) (pnum fs.half))
+  (pIfElse fs (attr self "fraction_along") (pFloat fs (attr self "fraction_along")) (pnum fs.half))
 
 def Nml.InputW._get_cell_id (fs : FloatSem F) (self : Obj F) (id_string : Res F) : Res F :=
   (pIfElse fs (pIn ['['] id_string) (pInt fs (pIndex 0 (pSplit ']' (pIndex 1 (pSplit '[' id_string))))) (pInt fs (pIndex 2 (pSplit '/' id_string))))
@@ -462,10 +468,10 @@ def Nml.InputW.get_target_cell_id (fs : FloatSem F) (self : Obj F) : Res F :=
   (pCall1 (Nml.InputW._get_cell_id fs self) (attr self "target"))
 
 def Nml.InputW.get_segment_id (fs : FloatSem F) (self : Obj F) : Res F :=
-  (pIfElse fs (pIsNotNone (attr self "segment_id")) (pInt fs (attr self "segment_id")) (pint 0))
+  (pIfElse fs (attr self "segment_id") (pInt fs (attr self "segment_id")) (pint 0))
 
 def Nml.InputW.get_fraction_along (fs : FloatSem F) (self : Obj F) : Res F :=
-  (pIfElse fs (pIsNotNone (attr self "fraction_along")) (pFloat fs (attr self "fraction_along")) (pnum fs.half))
+  (pIfElse fs (attr self "fraction_along") (pFloat fs (attr self "fraction_along")) (pnum fs.half))
 
 def Nml.ExplicitInput._get_cell_id (fs : FloatSem F) (self : Obj F) (id_string : Res F) : Res F :=
   (pIfElse fs (pIn ['['] id_string) (pInt fs (pIndex 0 (pSplit ']' (pIndex 1 (pSplit '[' id_string))))) (pInt fs (pIndex 2 (pSplit '/' id_string))))
@@ -474,10 +480,10 @@ def Nml.ExplicitInput.get_target_cell_id (fs : FloatSem F) (self : Obj F) : Res 
   (pIfElse fs (pIn ['['] (attr self "target")) (pInt fs (pIndex 0 (pSplit ']' (pIndex 1 (pSplit '[' (attr self "target")))))) (pInt fs (pIndex 2 (pSplit '/' (attr self "target")))))
 
 def Nml.ExplicitInput.get_segment_id (fs : FloatSem F) (self : Obj F) : Res F :=
-  (pint 0)
+  (pIfElse fs (attr self "segment_id") (pInt fs (attr self "segment_id")) (pint 0))
 
 def Nml.ExplicitInput.get_fraction_along (fs : FloatSem F) (self : Obj F) : Res F :=
-  (pnum fs.half)
+  (pIfElse fs (attr self "fraction_along") (pFloat fs (attr self "fraction_along")) (pnum fs.half))
 
 def Nml.SynapticConnection._get_cell_id (fs : FloatSem F) (self : Obj F) (ref : Res F) : Res F :=
   (pIfElse fs (pIn ['['] ref) (pInt fs (pIndex 0 (pSplit ']' (pIndex 1 (pSplit '[' ref))))) (pInt fs (pIndex 2 (pSplit '/' ref))))
@@ -487,7 +493,7 @@ def Nml.Population.get_size (fs : FloatSem F) (self : Obj F) : Res F :=
 
 def Nml.index : List (String × List String) :=
   [("Connection", ["_get_cell_id", "get_pre_cell_id", "get_post_cell_id", "get_pre_segment_id", "get_post_segment_id", "get_pre_fraction_along", "get_post_fraction_along"]),
-   ("ConnectionWD", ["_get_cell_id", "get_pre_cell_id", "get_post_cell_id", "get_pre_segment_id", "get_post_segment_id", "get_pre_fraction_along", "get_post_fraction_along"]),
+   ("ConnectionWD", ["_get_cell_id", "get_pre_cell_id", "get_post_cell_id", "get_pre_segment_id", "get_post_segment_id", "get_pre_fraction_along", "get_post_fraction_along", "get_delay_in_ms"]),
    ("ElectricalConnection", ["_get_cell_id", "get_pre_cell_id", "get_post_cell_id", "get_pre_segment_id", "get_post_segment_id", "get_pre_fraction_along", "get_post_fraction_along"]),
    ("ElectricalConnectionInstance", ["_get_cell_id", "get_pre_cell_id", "get_post_cell_id", "get_pre_segment_id", "get_post_segment_id", "get_pre_fraction_along", "get_post_fraction_along"]),
    ("ElectricalConnectionInstanceW", ["_get_cell_id", "get_pre_cell_id", "get_post_cell_id", "get_pre_segment_id", "get_post_segment_id", "get_pre_fraction_along", "get_post_fraction_along", "get_weight"]),
